@@ -29,6 +29,9 @@ from harness import opsem
 
 ID = 'C16'
 R = 130
+# in-flight mode: a 24-level expression around the context function p; at most MAX_INFLIGHT evaluations of it in flight at once
+INFLIGHT_PROGRAM = '1 + ( ' * 24 + 'p ( )' + ' )' * 24
+MAX_INFLIGHT = 48
 PROGRAMS = [
     'x + y', 'x - y', 'x * 2 ; x', 'a = x ; a', 'a = x ; a < y ; a', 'a < y ; a', 'a = 4 ; a', 'a < 4 ; a',
     '7 - 2', '7 + 2', 'x / 0', '1 + ( 2 + ( 3 / 0 ) )', 'a = x ; b = a / 0 ; c = 1', 'q', 'q + 1',
@@ -117,11 +120,12 @@ def same_outcome(px, o1, e1, o2, e2):
 
 def harness(it, px, params):
     progs = params['programs']
-    ia = pick_config(px, 'A', len(progs))
+    progsA = params.get('programs_A', progs)
+    ia = pick_config(px, 'A', len(progsA))
     ib = pick_config(px, 'B', len(progs))
     modes = params['modes']
     mode = modes[pick_config(px, 'mode', len(modes))]
-    A, B = progs[ia], progs[ib]
+    A, B = progsA[ia], progs[ib]
     px.notes.append('%s | %s | %s' % (A, B, mode))
     S = [0, 1]
     xs = {}
@@ -163,6 +167,29 @@ def harness(it, px, params):
         rec['cells_changed_by_parse'] = ch
         if pa.kind not in ('ok', 'err'):
             problems.append(('parse-%s' % pa.kind, 'parse of A ends with %s' % pa.kind, None))
+    elif mode == 'in-flight':
+        # A is being evaluated on k other threads, each paused inside the context function p, while B runs here.
+        # What one in-flight evaluation holds in process-wide integers (value inside p minus value after it returned) is
+        # multiplied by a solver variable k (evalsem leak acceleration, applied to concurrency instead of history).
+        inside = {}
+
+        def pause(it_, args):
+            inside['s'] = es.static_ints(it_)
+            return Ok(api.V_num(7, 0))
+        ctxA = api.new_context(it, [('p', ('func', PyFn(pause, 'p')))])
+        oA = api.execute(it, A, ctxA)
+        after = es.static_ints(it)
+        held = [(key, after[key], v - after[key]) for key, v in sorted(inside.get('s', {}).items())
+                if not key[0].startswith('tls[') and key in after and v != after[key]]
+        if oA.kind == 'ok' and held:
+            accel_k = px.bv('inflight_k', 64)
+            px.add(z3.ULE(accel_k, z3.BitVecVal(MAX_INFLIGHT, 64)))
+            px.get_model()
+            for (name, pth), base, d in held:
+                cell = it.statics[name]
+                cell.v = es._replace_leaf(cell.v, pth, z3.BitVecVal(base % (1 << 64), 64) + accel_k * z3.BitVecVal(d % (1 << 64), 64))
+            rec['held_in_flight'] = ['%s%s: %+d' % (n_, list(p_), d_) for (n_, p_), _, d_ in held]
+            px.cover('in-flight-accelerated')
     elif mode == 'twice-same-ast':
         pa = api.parse(it, A)
         if pa.kind == 'ok':
@@ -213,7 +240,9 @@ def harness(it, px, params):
         mdl = mdl or p[2]
     mdl = mdl or px.get_model()
     rec['witness'] = {k: str(mdl.eval(v.f[0].m, model_completion=True).as_long()) for k, v in xs.items()}
-    if accel_k is not None:
+    if accel_k is not None and mode == 'in-flight':
+        rec['witness']['inflight'] = mdl.eval(accel_k, model_completion=True).as_long()
+    elif accel_k is not None:
         rec['witness']['reps'] = R + mdl.eval(accel_k, model_completion=True).as_long()
     ptrs = getattr(px, 'ptrs', {})
     if ptrs:
@@ -235,6 +264,16 @@ def scenario(A, B, mode, w):
         steps += REG_STEPS
     elif mode == 'parse-only':
         steps.append({'op': 'parse', 'hex': A.encode().hex(), 'want': []})
+    elif mode == 'in-flight':
+        k = int(w.get('inflight', 0))
+        lists = []
+        for i in range(k):
+            lists.append([{'op': 'ctx_new', 'ctx': 'p%d' % i},
+                          {'op': 'ctx_set_func', 'ctx': 'p%d' % i, 'name': b'p'.hex(), 'handler': {'h': 'arrive_wait', 'flag': 'go', 'ms': 6000, 'id': 'p'}},
+                          {'op': 'execute', 'hex': A.encode().hex(), 'ctx': 'p%d' % i}])
+        main = [{'op': 'wait_arrived', 'n': k, 'ms': 5000}] + ctx('b', w['x2'], w['y2']) + [
+            {'op': 'execute', 'hex': B.encode().hex(), 'ctx': 'b'}, {'op': 'ctx_dump', 'ctx': 'b'}, {'op': 'set_flag', 'flag': 'go'}]
+        return [{'op': 'threads', 'threads': lists + [main], 'ms': 15000}]
     elif mode == 'twice-same-ast':
         steps += ctx('a1', w['x'], w['y']) + [{'op': 'execute', 'hex': A.encode().hex(), 'ctx': 'a1'}]
         steps += ctx('a2', w['x'], w['y']) + [{'op': 'execute', 'hex': A.encode().hex(), 'ctx': 'a2'}]
@@ -272,8 +311,9 @@ def run(ctx):
     recs, summ = ex.explore(eng, harness, dict(params, modes=['parse-only', 'once', 'twice-same-ast'], wall_budget=500 if ctx.tier == 'quick' else 900), prepare=prepare)
     recs2, summ2 = ex.explore(eng, harness, dict(params, modes=['repeat'], wall_budget=500 if ctx.tier == 'quick' else 900), prepare=prepare)
     recs3, summ3 = ex.explore(eng, harness, dict(params, programs=REG_PROGRAMS, modes=['parse-then-register'], wall_budget=300 if ctx.tier == 'quick' else 400), prepare=prepare)
-    recs += recs2 + recs3
-    for s_ in (summ2, summ3):
+    recs4, summ4 = ex.explore(eng, harness, dict(params, programs_A=[INFLIGHT_PROGRAM], modes=['in-flight'], wall_budget=200 if ctx.tier == 'quick' else 400), prepare=prepare)
+    recs += recs2 + recs3 + recs4
+    for s_ in (summ2, summ3, summ4):
         for k in ('paths', 'sat', 'unsat', 'unknown', 'solver_s', 'steps', 'decisions'):
             summ[k] += s_[k]
         summ['truncated'] = summ['truncated'] or s_['truncated']
@@ -289,7 +329,7 @@ def run(ctx):
     covers = set()
     for r in recs:
         covers.update(r.get('covers', []))
-    for need in ('mode-parse-only', 'mode-once', 'mode-repeat', 'mode-twice-same-ast', 'mode-parse-then-register'):
+    for need in ('mode-parse-only', 'mode-once', 'mode-repeat', 'mode-twice-same-ast', 'mode-parse-then-register', 'mode-in-flight'):
         if need not in covers:
             inconclusive.append('vacuity: %s never reached' % need)
     groups = {}
@@ -307,6 +347,9 @@ def run(ctx):
             od = ctx.native(sc, 'dev', timeout=120)
             oa = ctx.native(scenario_alone(f['B'], f['witness'], f['mode']), 'dev')
             validated += 1
+            if f['mode'] == 'in-flight':
+                res_main = (od[-1].get('results') or [[]])[-1]
+                od = list(od) + (res_main[-3:-1] if len(res_main) >= 3 else [{'kind': 'missing'}, {'kind': 'missing'}])
             bad = obs_key(od[-2]) != obs_key(oa[-2]) or obs_key(od[-1]) != obs_key(oa[-1])
             if f['mode'] == 'twice-same-ast':
                 execs = [o for o, s in zip(od, sc) if s['op'] == 'execute']
@@ -339,7 +382,9 @@ def run(ctx):
         'coverage': {
             'states': max(1, summ['paths']), 'transitions': max(1, summ['decisions']),
             'traces_validated_against_impl': validated, 'samples': samples, 'exhaustive': not summ.get('truncated') and not inconclusive, 'truncated_by_budget': bool(summ.get('truncated')),
-            'bound': {'programs': len(progs), 'ordered_pairs': len(progs) ** 2, 'history_modes': ['parse-only', 'once', 'repeat x%d' % R, 'same AST twice', 'A parsed, then postfix/prefix/infix/function registrations, then B (programs: %s)' % REG_PROGRAMS],
+            'bound': {'programs': len(progs), 'ordered_pairs': len(progs) ** 2, 'history_modes': ['parse-only', 'once', 'repeat x%d' % R, 'same AST twice', 'A parsed, then postfix/prefix/infix/function registrations, then B (programs: %s)' % REG_PROGRAMS,
+                                                     'in-flight: k <= %d evaluations of a 24-level program paused inside a context function on other threads while B runs (k symbolic; what one of them holds in process-wide integers is multiplied by k)' % MAX_INFLIGHT,
+                                                     'repeat: integers in statics / thread-locals that move linearly per evaluation are extrapolated by a symbolic k <= %d further evaluations' % es.ACCEL_MAX],
                       'context_values': 'four symbolic integers |n| <= 10^12'},
             'path_status': by_status, 'global_cells_changed_by_a_call': changed,
             'solver': {'engine': 'z3 ' + z3.get_version_string(), 'queries_sat': summ['sat'], 'queries_unsat': summ['unsat'],
